@@ -233,5 +233,6 @@ MUTANTS = [
     Mutant('range-shortcut-ignores-stride', SY, "        if self.children[0] == 1 and self.children[2] is None:\n            return self.children[1] == other or super().__eq__(other)\n        return super().__eq__(other)\n\n    @property\n    def lower",
            "        if self.children[0] == 1:\n            return self.children[1] == other or super().__eq__(other)\n        return super().__eq__(other)\n\n    @property\n    def lower",
            expect=('R5', 'Range.__eq__')),
-    Mutant('repair-inlinecall-hash', SY, "        return hash(self.__getinitargs__())", "        return hash(self._canonical(self))", expect=None),
+    Mutant('inlinecall-hash-initargs', SY, "        return StrCompareMixin.__hash__(self)", "        return hash(self.__getinitargs__())", expect=('R1', 'InlineCall')),
+    Mutant('neutral-inlinecall-hash-inline', SY, "        return StrCompareMixin.__hash__(self)", "        return hash(self._canonical(self))", expect=None),
 ]
